@@ -715,7 +715,7 @@ LEAF_NESTED = [("optint", "val", "None"), ("int", "val", "1"), ("date", "no", No
                ("any", "val", "None"), ("int_none", "val", "None")]
 
 
-def gen_table(rng) -> list[NCls]:
+def gen_table(rng, unions: bool = True) -> list[NCls]:
     """class 0 is a mixin root; the others are mixin subclasses, plain dataclasses with a Config, or plain
     dataclasses without any Config; class i only refers to classes j > i"""
     n = rng.randint(2, 5)
@@ -738,7 +738,7 @@ def gen_table(rng) -> list[NCls]:
             al = aliases[i] if rng.random() < 0.4 else None
             if later and (rng.random() < 0.55 or (cid == 0 and i == 0)):
                 k = rng.random()
-                if len(later) >= 2 and k < 0.3:
+                if unions and len(later) >= 2 and k < 0.3:
                     mem = tuple(rng.sample(later, rng.randint(2, min(3, len(later)))))
                     fields.append(DcField(nm, mem, False, al, False))
                 elif k < 0.5:
@@ -851,7 +851,7 @@ def both_flags(a, b):
     return tuple(x and y for x, y in zip(a, b))
 
 
-def walk(table, ns, t, inst, plain, members, outer, avail, mode: str, hits: dict):
+def walk(table, ns, t, inst, plain, members, outer, avail, mode: str, hits: dict, codec=None):
     """hereditary reference (mode 'spec') / prediction under the two known findings (mode 'kf'):
     the mapping expected for the instance `inst` of tree `t`; avail = (omit_none, by_alias, dialect ns)
     values of the caller's keyword parameters; hits records where D14 / D8b corners are met."""
@@ -871,6 +871,9 @@ def walk(table, ns, t, inst, plain, members, outer, avail, mode: str, hits: dict
             if mode == "kf":
                 fl = fl_impl
     o = replace(c.o, kon=avail[0] if fl[0] else None, kba=avail[1] if fl[1] else None, call=avail[2] if fl[2] else None)
+    if codec is not None:
+        # codec path: static call without keywords; every class sits on the codec's default dialect
+        o = replace(c.o, kon=None, kba=None, call=None, dd=codec[0])
     if d14_signature(o):
         hits["d14"] = True
     e = effective_d14(o) if mode == "kf" else effective(o)
@@ -890,10 +893,10 @@ def walk(table, ns, t, inst, plain, members, outer, avail, mode: str, hits: dict
     sub = {}
     for f, x in zip(fields, ch):
         if isinstance(x, list):
-            sub[f.name] = [walk(table, ns, y, iy, py, f.members, cls_flags(c), avail2, mode, hits)
+            sub[f.name] = [walk(table, ns, y, iy, py, f.members, cls_flags(c), avail2, mode, hits, codec)
                            for y, iy, py in zip(x, getattr(inst, f.name), plain[f.name])]
         elif isinstance(f, DcField) and not isinstance(x, str):
-            sub[f.name] = walk(table, ns, x, getattr(inst, f.name), plain[f.name], f.members, cls_flags(c), avail2, mode, hits)
+            sub[f.name] = walk(table, ns, x, getattr(inst, f.name), plain[f.name], f.members, cls_flags(c), avail2, mode, hits, codec)
     return project(e, fields, defaults, inst, plain, sub)
 
 
@@ -909,7 +912,14 @@ Definition ncase_ok (c: list cls * (nat * node) * kwv * option pv * bool) : bool
     | Some a, Some b => pv_eqb a b
     | None, None => true
     | _, _ => false end
-    && Bool.eqb (ok_h ct n [root] root_flags k None) py_in_domain end.
+    && Bool.eqb (ok_h ct true n [root] root_flags k None) py_in_domain end.
+Definition ccase_ok (c: list cls * (nat * node) * option ns * option pv * bool) : bool :=
+  match c with (ct, (root, n), dd, expected, py_in_domain) =>
+    match to_dict_codec ct false n root dd, expected with
+    | Some a, Some b => pv_eqb a b
+    | None, None => true
+    | _, _ => false end
+    && Bool.eqb (ok_h ct false n [root] root_flags no_kw dd) py_in_domain end.
 """
 
 
@@ -1031,6 +1041,64 @@ def run_nested(ctx: vlib.Ctx, ncases: list[str], ninfo: list):
                 kba = rng.choice([None, True, False]) if root.o.fba else None
                 rcall = call if root.o.fdl else None
                 eval_nested(ctx, table, order, src, ns, rid, gen_tree(rng, table, rid), kon, kba, rcall, ncases, ninfo)
+        unload(ns)
+
+
+def run_codec_nested(ctx: vlib.Ctx, ccases: list[str], cinfo: list):
+    """codec path over nested classes: BasicEncoder / JSONEncoder(<any class of the table>, default_dialect=D).encode(x);
+    every class (mixin or plain) is compiled by the codec's own builders with D as lowest option level and is called
+    statically without keywords; the twin is encoded by BasicEncoder without default dialect"""
+    import json as _json
+    from mashumaro.codecs.basic import BasicEncoder
+    from mashumaro.codecs.json import JSONEncoder
+    rng = ctx.rng
+    for _ in range(ctx.budget(90, 900)):
+        table = gen_table(rng, unions=False)
+        order = definition_order(rng, table)
+        dd = gen_ns(rng, 0.15)
+        src = table_source(table, None, order) + (dialect_source("DefD", dd) if dd is not None else "")
+        ns = load(src)
+        for rid in rng.sample(range(len(table)), min(2, len(table))):
+            t = gen_tree(rng, table, rid)
+            use_json = rng.random() < 0.3
+            rep = {"kind_of_case": "codec-nested", "source": src, "cls": f"C{rid}", "twin": f"P{rid}",
+                   "instance": tree_src(table, t, "C"), "twin_instance": tree_src(table, t, "P"),
+                   "entry": "json-codec" if use_json else "codec", "kwargs": "", "default_dialect": "DefD" if dd is not None else None}
+            inst = eval(rep["instance"], ns)
+            twin = eval(rep["twin_instance"], ns)
+            try:
+                plain = BasicEncoder(ns[f"P{rid}"]).encode(twin)
+            except Exception as ex:
+                rep["expected"] = "a mapping"
+                ctx.fail(f"codec: the option-free twin raised {type(ex).__name__}: {ex}"[:300], rep,
+                         {"kind": "plain-raised-" + type(ex).__name__, "entry": "codec-nested"})
+                continue
+            hits: dict = {}
+            expected = walk(table, ns, t, inst, plain, (rid,), ALL_FLAGS, (None, None, None), "spec", hits, codec=(dd,))
+            rep["expected"] = repr(expected)
+            rep["plain"] = repr(plain)
+            ctx.count(("codec-nested", repr(table), rid, repr(t), dd, use_json))
+            ctx.hist("entry", "codec-nested")
+            ctx.hist("codec_root", "mixin" if table[rid].mixin else "plain")
+            try:
+                ddc = ns["DefD"] if dd is not None else None
+                if use_json:
+                    observed = _json.loads(JSONEncoder(ns[f"C{rid}"], default_dialect=ddc).encode(inst))
+                else:
+                    observed = BasicEncoder(ns[f"C{rid}"], default_dialect=ddc).encode(inst)
+            except Exception as ex:
+                rep["observed"] = f"{type(ex).__name__}: {ex}"
+                ctx.fail(f"codec {rep['instance']} (default_dialect={dd}) raised {type(ex).__name__}: {ex}"[:400], rep,
+                         {"kind": "raised-" + type(ex).__name__, "entry": "codec-nested"})
+                continue
+            rep["observed"] = repr(observed)
+            enc = PvEnc()
+            ccases.append(f"({coq_table(table, ns, enc)}, ({rid}%nat, {coq_node(table, t, inst, plain, enc)}), "
+                          f"{coq_ns(dd)}, (Some {coq_tree_value(observed, enc)}), {coq_bool(not hits)})")
+            cinfo.append(rep)
+            if typed(observed) != typed(expected):
+                ctx.fail(f"codec {rep['instance']} with default_dialect={dd} encodes to {observed!r}, hereditary projection of the "
+                         f"plain output is {expected!r}"[:500], rep, {"kind": "codec-nested-projection-mismatch", "entry": "codec-nested"})
         unload(ns)
 
 
@@ -1263,7 +1331,7 @@ def run(ctx: vlib.Ctx):
     ctx.theorems("props/C08_kernel_K16.vo", ["K16_nullable"], kernels=["K16"])
     ctx.theorems("props/C08_project.vo", thm)
     ctx.theorems("props/C08_nested.vo", ["C08_nested_partial", "C08_union_flags_refuted", "C08_forwarded_exactly", "C08_no_leak",
-                                            "C08_option_free_is_plain"])
+                                            "C08_option_free_is_plain", "C08_codec_partial", "C08_codec_obj", "C08_codec_no_leak"])
 
     if not ctx.quick():
         # second opinion: the independent checker on the compiled property files
@@ -1311,6 +1379,25 @@ def run(ctx: vlib.Ctx):
         if bad:
             ctx.not_shown("correspondence " + name, detail)
 
+    ccases: list[str] = []
+    cinfo: list = []
+    run_codec_nested(ctx, ccases, cinfo)
+    name = "codec-nested-model-vs-generated-code"
+    bad, log = vlib.coq_bad_idx("c08_codec", "OptProj OptNested", "", NESTED_DEFS, ccases, "ccase_ok",
+                                "list cls * (nat * node) * option ns * option pv * bool", shard=300,
+                                needs=["theories/OptNested.vo"])
+    if bad is None:
+        ctx.correspondence(name, len(ccases), -1, log)
+        ctx.not_shown("correspondence " + name, log)
+    else:
+        detail = ""
+        if bad:
+            r = cinfo[bad[0]]
+            detail = f"{len(bad)} cases, first: {r['entry']} {r['instance']} default_dialect {r['default_dialect']} observed {r['observed']}\n{r['source']}"
+        ctx.correspondence(name, len(ccases), len(bad), detail)
+        if bad:
+            ctx.not_shown("correspondence " + name, detail)
+
     name = "nested-model-vs-generated-code"
     bad, log = vlib.coq_bad_idx("c08_nested", "OptProj OptNested", "", NESTED_DEFS, ncases, "ncase_ok",
                                 "list cls * (nat * node) * kwv * option pv * bool", shard=300,
@@ -1350,11 +1437,20 @@ def replay(rep: dict) -> int:
     inst = eval(rep["instance"], ns)
     twin = eval(rep["twin_instance"], ns)
     try:
-        plain = twin.to_dict()
+        if rep.get("kind_of_case") == "codec-nested":
+            from mashumaro.codecs.basic import BasicEncoder
+            plain = BasicEncoder(ns[rep["twin"]]).encode(twin)
+        else:
+            plain = twin.to_dict()
     except Exception as ex:
         plain = f"{type(ex).__name__}: {ex}"
     try:
-        if rep.get("entry") == "codec":
+        if rep.get("entry") == "json-codec":
+            import json as _json
+            from mashumaro.codecs.json import JSONEncoder
+            dd = ns[rep["default_dialect"]] if rep.get("default_dialect") else None
+            got = _json.loads(JSONEncoder(ns[rep["cls"]], default_dialect=dd).encode(inst))
+        elif rep.get("entry") == "codec":
             from mashumaro.codecs.basic import BasicEncoder
             dd = ns[rep["default_dialect"]] if rep.get("default_dialect") else None
             got = BasicEncoder(ns[rep["cls"]], default_dialect=dd).encode(inst)
